@@ -346,6 +346,12 @@ def t3(ctx, res):
     res.check(has("isinstance(MV_c, Element)", gc), gc, "isinstance(child, Element)", reason="children are filtered by being elements")
     res.check(has("yield from get_children(MV_c, MV_s)", gc), gc, "yield from get_children(child, seen)",
               reason="the walk is transitive")
+    for c in element_family(ctx):
+        for dunder in ("__getitem__", "__class_getitem__", "__getattr__", "__getattribute__"):
+            if dunder in c.methods:
+                res.violation(c.methods[dunder], f"{c.name}.{dunder}",
+                              reason="the child walker reads a keyword with item access first and attribute access second: an element "
+                                     "(or object class) that answers item/attribute look-ups itself hides its keyword values from it")
     gp = ctx.func("_get_path")
     res.check(has("isinstance(MV_n, list)", gp), gp, "isinstance(next_item, list)",
               reason="list-valued positions (tuple items, composition elements) are flattened")
@@ -1015,7 +1021,8 @@ def t13(ctx, res):
     n = 0
     element = ctx.cls("Element")
     for short in ("get_children", "get_object_classes", "orderer", "serialize_json", "_get_path", "serialize_python",
-                  "_get_single_element_imports"):
+                  "_get_single_element_imports", "_compose_elements", "_parse_composition", "_parse_multi_typed",
+                  "_parse_items", "_parse_properties", "parse"):
         f = ctx.func(short)
         funcs = [f] + list(f.nested.values())
         for g in funcs:
@@ -1043,7 +1050,8 @@ def t13(ctx, res):
 
 def _mentions_elements(e):
     t = norm(e)
-    return any(w in t for w in ("children", "object_classes", "get_children(", "get_object_classes(", "elements"))
+    return any(w in t for w in ("children", "object_classes", "get_children(", "get_object_classes(", "elements", "all_of",
+                                "parse_element("))
 
 
 # --------------------------------------------------------------------- T14
